@@ -115,4 +115,10 @@ var registry = []prop{
 		Thor:   tierCfg{Shards: 16, Scale: 8, TimeoutS: 1800},
 		Assume: []string{"hash-map iteration orders are sampled by repeating the computation 8 times per case on freshly built equal input", "which of several inconsistencies is reported may differ between runs; only success/failure must agree"},
 	},
+	{
+		ID: "C03", Pkg: "props/c03", Level: "exploration",
+		Quick:  tierCfg{Shards: 1, Scale: 1, TimeoutS: 300},
+		Thor:   tierCfg{Shards: 16, Scale: 8, TimeoutS: 1800},
+		Assume: []string{"documents are UTF-8, without namespaces or DTDs, written by the harness's own XML writer (internal/osmdoc) which knows element/attribute names from the OSM XML format description", "an absent attribute equals the zero value of its field; unknown top-level elements never contain OSM element names (the streaming scanner documents dispatch by element name at any depth)", "note dates use the notes API layout with whole seconds"},
+	},
 }
